@@ -59,10 +59,32 @@ func attemptFuncs(c *Ctx) []*ssa.Function {
 			}
 		})
 		// unwrap one-call wrappers (closure → method, bound-method wrapper → method → worker)
-		for depth := 0; depth < 4 && len(target.Blocks) == 1; depth++ {
+		// (a wrapper may have grown a deferred recover or a log line: what makes it a wrapper is that it makes exactly one
+		// static repo call, to which it hands its own writer parameter)
+		passesOwnWriter := func(f *ssa.Function) bool {
+			ok := false
+			eachInstr(f, func(in ssa.Instruction) {
+				if cc := getCall(in); cc != nil {
+					if sc := cc.StaticCallee(); sc != nil && c.inRepo(sc) {
+						for _, a := range cc.Args {
+							if p, isP := a.(*ssa.Parameter); isP && p.Parent() == f && isNamed(p.Type(), "net/http", "ResponseWriter") {
+								ok = true
+							}
+						}
+					}
+				}
+			})
+			return ok
+		}
+		for depth := 0; depth < 4 && (len(target.Blocks) == 1 || passesOwnWriter(target)); depth++ {
 			calls = calls[:0]
 			eachInstr(target, func(in ssa.Instruction) {
 				if cc := getCall(in); cc != nil {
+					if _, isDefer := in.(*ssa.Defer); isDefer {
+						if _, isLit := cc.Value.(*ssa.MakeClosure); isLit {
+							return // a deferred clean-up / recover literal is not the worker
+						}
+					}
 					if sc := cc.StaticCallee(); sc != nil && c.inRepo(sc) {
 						calls = append(calls, sc)
 					}
@@ -178,6 +200,39 @@ func checkC19(c *Ctx, r *Report) {
 				r.OK("C19-R2", key, ret.Pos(), "exactly one RecordSuccess/RecordFailure on every path to this return")
 			} else {
 				r.Bad("C19-R2", key, ret.Pos(), fmt.Sprintf("paths to this return perform %v outcome records (want exactly 1)", countsOf(s, 0)))
+			}
+		}
+	}
+
+	// the ProxyFunc values themselves: a wrapper around the worker (a deferred recover that records a failure, say)
+	// must not add a second outcome to an attempt the worker has already recorded
+	{
+		isAtt := map[*ssa.Function]bool{}
+		for _, af := range atts {
+			isAtt[af] = true
+		}
+		for _, impl := range proxyFuncImpls(c) {
+			if isAtt[impl] || impl.Blocks == nil {
+				continue
+			}
+			pc := newPathCounter(c, func(in ssa.Instruction) int {
+				if isBaseRecord(in, "RecordSuccess") || isBaseRecord(in, "RecordFailure") {
+					return 0
+				}
+				return -1
+			})
+			per := pc.perReturn(impl, 0)
+			for _, ret := range returnsOf(impl) {
+				s := per[ret]
+				if s == 0 {
+					continue
+				}
+				key := fmt.Sprintf("%s:wrapper-return#%s", fname(impl), retKey(c, impl, ret))
+				if onlyVec(s, [3]int{1, 0, 0}) {
+					r.Triv("C19-R2", key, ret.Pos(), "the ProxyFunc wrapper adds no outcome record of its own")
+				} else {
+					r.Bad("C19-R2", key, ret.Pos(), fmt.Sprintf("paths through the ProxyFunc value perform %v outcome records (want exactly 1): the wrapper records an outcome for an attempt its worker has already recorded", countsOf(s, 0)))
+				}
 			}
 		}
 	}
